@@ -349,7 +349,7 @@ func checkC04(c *Check) {
 }
 
 func checkC18(c *Check) {
-	c.Rule = "Same enumeration as C05 (GoValGen.tla), with pointer-held big numbers of every sign and magnitude class: the abstract value (including sign, coefficient, exponent, precision of big numbers) is taken before and after ce.MarshalToCBEDocument and ce.MarshalToCTEDocument (also a second time) and must be identical. non-trivial = value reaches a big number or container; distinct = (type, class, repetition, format)"
+	c.Rule = "Same enumeration as C05 (GoValGen.tla), with pointer-held big numbers of every sign and magnitude class: the abstract value (including sign, coefficient, exponent, precision of big numbers) is taken before and after ce.MarshalToCBEDocument and ce.MarshalToCTEDocument (also a second time) and must be identical; the same for compact times filled in field by field (zones given by long name only, short name only, coordinates, offset) held by pointer, value, interface, slice and map, and for marshal calls whose destination writer fails at every Write index. non-trivial = value reaches a big number or container; distinct = (type, class, repetition, format)"
 	c.Assumptions = []string{"harness materialiser and abs", "TLC"}
 	cases, reps := govalTier(c)
 	// extra: big numbers held by pointer, by value, in interfaces, slices, struct fields
@@ -378,4 +378,6 @@ func checkC18(c *Check) {
 		}
 	})
 	c18BigNumbers(c)
+	c18HandBuiltTimes(c)
+	c18FailingWriters(c)
 }
